@@ -95,6 +95,10 @@ def run(ctx, facts):
     body = fn["hir"]
     tail = nf.nf(body["expr"]) if "expr" in body else ""
     ctx.info("returned tuple: %s" % tail)
+    # the collision fraction the bounds are applied to is computed by jaccard::get_jaccard_index_estimate: equal registers / m
+    from . import C14
+    ctx.rule("EST", C14.RULES["EST"])
+    C14.est_template(ctx, facts, "jaccard::get_jaccard_index_estimate")
     ctor_sib(ctx, facts)
 
 
